@@ -1,6 +1,6 @@
 (* C04 — running the model on the correspondence cases.  No proofs here.
    [aid] is instantiated with the real bc.ComputeAssetID (SHA3-256 of coq/lib/Sha3.v). *)
-From Coq Require Import List NArith Bool.
+From Coq Require Import List NArith ZArith Bool Uint63.
 From Verif Require Import Outcome Cmp Sha3.
 From C04 Require Import Model.
 Import ListNotations.
@@ -10,9 +10,20 @@ Open Scope N_scope.
 Fixpoint be_bytes (k : nat) (n : N) (acc : bytes) : bytes :=
   match k with
   | O => acc
-  | S k' => be_bytes k' (N.div n 256) (N.modulo n 256 :: acc)
+  | S k' => be_bytes k' (N.shiftr n 8) (N.land n 255 :: acc)
   end.
 Definition B (k : N) (n : N) : bytes := be_bytes (N.to_nat k) n [].
+
+(* the form used by the case files: [W len words], the bytes packed big-endian seven to a
+   primitive 63-bit integer (the last word holds the remaining len mod 7 bytes); primitive
+   integers are used for nothing else than writing these literals compactly *)
+Definition word_bytes (k : nat) (w : int) : bytes := be_bytes k (Z.to_N (Uint63.to_Z w)) [].
+Fixpoint words_bytes (k : nat) (ws : list int) : bytes :=
+  match ws with
+  | [] => []
+  | w :: t => if Nat.leb k 7 then word_bytes k w else word_bytes 7 w ++ words_bytes (k - 7) t
+  end.
+Definition W (k : N) (ws : list int) : bytes := words_bytes (N.to_nat k) ws.
 
 (* uint64 little endian (writeForHash of a uint64) *)
 Fixpoint le_bytes (k : nat) (n : N) : bytes :=
@@ -26,6 +37,30 @@ Fixpoint le_bytes (k : nat) (n : N) : bytes :=
    = uint64 LE vm version, varstr31 code, 32 bytes of the definition hash *)
 Definition real_aid (prog : bytes) (vmv : N) (def : bytes) : bytes :=
   sha3_256 (le_bytes 8 (vmv mod 18446744073709551616) ++ write_varstr31 prog ++ sha3_256 def).
+
+(* The SHA3 evaluations dominate the cost of a case; [memo_aid keys] computes the asset id of
+   every listed (program, vm version, definition) once and answers from that table, falling
+   back to the real computation for any other argument. *)
+Definition aid_key := (bytes * N * bytes)%type.
+Definition aid_key_eqb (a b : aid_key) : bool :=
+  bytes_eqb (fst (fst a)) (fst (fst b)) && (snd (fst a) =? snd (fst b)) && bytes_eqb (snd a) (snd b).
+Fixpoint aid_lookup (tab : list (aid_key * bytes)) (k : aid_key) : option bytes :=
+  match tab with
+  | [] => None
+  | (k', v) :: t => if aid_key_eqb k k' then Some v else aid_lookup t k
+  end.
+Definition memo_aid (keys : list aid_key) : bytes -> N -> bytes -> bytes :=
+  let tab := map (fun k => (k, real_aid (fst (fst k)) (snd (fst k)) (snd k))) keys in
+  fun prog vmv def =>
+    match aid_lookup tab (prog, vmv, def) with
+    | Some v => v
+    | None => real_aid prog vmv def
+    end.
+Definition tx_keys (t : tx_data) : list aid_key :=
+  flat_map (fun i => match in_typed i with
+                     | Some (Issuance _ _ def vmv prog _) => [(prog, vmv, def)]
+                     | _ => []
+                     end) (tx_inputs t).
 
 (* ---- boolean equalities on the values *)
 Definition bl_eqb := list_eqb bytes_eqb.
@@ -84,79 +119,92 @@ Definition header_eqb (a b : block_header) : bool :=
 Definition block_eqb (a b : block) : bool :=
   header_eqb (b_header a) (b_header b) && list_eqb tx_eqb (b_txs a) (b_txs b).
 
-(* ---- observables: (tag, raw bytes of the text form, decoded value)
-   tag 0 = marshalled and unmarshalled, 1 = marshal error, 2 = unmarshal error, 3 = panic *)
-Inductive value :=
-| VTx (t : tx_data)
-| VHeader (h : block_header)
-| VBlock (b : block).
-
-Definition value_eqb (a b : value) : bool :=
-  match a, b with
-  | VTx x, VTx y => tx_eqb x y
-  | VHeader x, VHeader y => header_eqb x y
-  | VBlock x, VBlock y => block_eqb x y
-  | _, _ => false
-  end.
-
-Definition obs := (nat * bytes * option value)%type.
+(* ---- observables: (tag, raw bytes of the text form, recorded sizes)
+   tag 0 = marshalled and unmarshalled, 1 = marshal error, 2 = unmarshal error, 3 = panic;
+   third component: Some (SerializedSize of every decoded transaction) when the decoded value
+   equals the expected one field by field (sizes apart), None otherwise *)
+Definition obs := (nat * bytes * option (list N))%type.
 Definition obs_eqb (a b : obs) : bool :=
   Nat.eqb (fst (fst a)) (fst (fst b)) && bytes_eqb (snd (fst a)) (snd (fst b)) &&
-  option_eqb value_eqb (snd a) (snd b).
+  option_eqb (list_eqb N.eqb) (snd a) (snd b).
 
 Definition unhex (text : bytes) : bytes :=
   match hex_decode text with Ok b => b | _ => [] end.
 
-Definition finish {A} (text : bytes) (r : res A) (inj : A -> value) : obs :=
-  match r with
-  | Ok v => (0%nat, unhex text, Some (inj v))
-  | Err _ => (2%nat, unhex text, None)
-  | Panic _ => (3%nat, unhex text, None)
-  end.
+Definition set_size (t : tx_data) (n : N) : tx_data :=
+  mkTx (tx_version t) n (tx_time_range t) (tx_inputs t) (tx_outputs t).
+Definition tx_same (got want : tx_data) : bool := tx_eqb got (set_size want (tx_size got)).
+Definition block_same (got want : block) : bool :=
+  header_eqb (b_header got) (b_header want) && list_eqb tx_same (b_txs got) (b_txs want).
 
-(* MarshalText then UnmarshalText *)
+(* TxData.MarshalText then TxData.UnmarshalText; the decoded value must be [t] (size apart) *)
 Definition run_tx (t : tx_data) : obs :=
-  match marshal_tx real_aid t with
-  | Ok text => finish text (unmarshal_tx real_aid text) VTx
+  let aid := memo_aid (tx_keys t) in
+  match marshal_tx aid t with
+  | Ok text =>
+    match unmarshal_tx aid text with
+    | Ok t' => (0%nat, unhex text, if tx_same t' t then Some [tx_size t'] else None)
+    | Err _ => (2%nat, unhex text, None)
+    | Panic _ => (3%nat, unhex text, None)
+    end
   | Err _ => (1%nat, [], None)
   | Panic _ => (3%nat, [], None)
   end.
 
 Definition run_header (nv : nat) (h : block_header) : obs :=
   match marshal_header h with
-  | Ok text => finish text (unmarshal_header nv text) VHeader
+  | Ok text =>
+    match unmarshal_header nv text with
+    | Ok h' => (0%nat, unhex text, if header_eqb h' h then Some [] else None)
+    | Err _ => (2%nat, unhex text, None)
+    | Panic _ => (3%nat, unhex text, None)
+    end
   | Err _ => (1%nat, [], None)
   | Panic _ => (3%nat, [], None)
   end.
 
+(* the block a given flag carries *)
+Definition carried (flag : N) (b : block) : block :=
+  mkBlock (if flag =? SerBlockTransactions then zero_header else b_header b)
+          (if flag =? SerBlockHeader then [] else b_txs b).
+
 Definition run_block (nv : nat) (flag : N) (b : block) : obs :=
-  match marshal_block real_aid flag b with
-  | Ok text => finish text (unmarshal_block real_aid nv text) VBlock
+  let aid := memo_aid (flat_map tx_keys (b_txs b)) in
+  match marshal_block aid flag b with
+  | Ok text =>
+    match unmarshal_block aid nv text with
+    | Ok b' => (0%nat, unhex text,
+                if block_same b' (carried flag b) then Some (map tx_size (b_txs b')) else None)
+    | Err _ => (2%nat, unhex text, None)
+    | Panic _ => (3%nat, unhex text, None)
+    end
   | Err _ => (1%nat, [], None)
   | Panic _ => (3%nat, [], None)
   end.
 
 (* UnmarshalText of given raw bytes (hex-encoded by the harness), then MarshalText of the
-   decoded value: observable = (tag, re-encoding, decoded value) *)
+   decoded value: observable = (tag, re-encoding, sizes); [want] is the value the
+   implementation decoded *)
 Definition reenc (r : res bytes) : bytes := match r with Ok text => unhex text | _ => [] end.
 
-Definition run_dec_tx (raw : bytes) : obs :=
+Definition run_dec_tx (raw : bytes) (want : option tx_data) : obs :=
   match unmarshal_tx real_aid (hex_encode raw) with
-  | Ok t => (0%nat, reenc (marshal_tx real_aid t), Some (VTx t))
+  | Ok t => (0%nat, reenc (marshal_tx (memo_aid (tx_keys t)) t),
+             match want with
+             | Some w => if tx_eqb t w then Some [tx_size t] else None
+             | None => None
+             end)
   | Err _ => (2%nat, [], None)
   | Panic _ => (3%nat, [], None)
   end.
 
-Definition run_dec_header (nv : nat) (raw : bytes) : obs :=
+Definition run_dec_header (nv : nat) (raw : bytes) (want : option block_header) : obs :=
   match unmarshal_header nv (hex_encode raw) with
-  | Ok h => (0%nat, reenc (marshal_header h), Some (VHeader h))
-  | Err _ => (2%nat, [], None)
-  | Panic _ => (3%nat, [], None)
-  end.
-
-Definition run_dec_block (nv : nat) (raw : bytes) : obs :=
-  match unmarshal_block real_aid nv (hex_encode raw) with
-  | Ok b => (0%nat, reenc (marshal_block real_aid SerBlockFull b), Some (VBlock b))
+  | Ok h => (0%nat, reenc (marshal_header h),
+             match want with
+             | Some w => if header_eqb h w then Some [] else None
+             | None => None
+             end)
   | Err _ => (2%nat, [], None)
   | Panic _ => (3%nat, [], None)
   end.
